@@ -679,3 +679,22 @@ func TestD35_FormatterParamOrder(t *testing.T) {
 		t.Fatalf("the same call produced %d different messages: %v", len(seen), seen)
 	}
 }
+
+// D36: options after the name in a source tag (`json:"name,omitempty"`) were taken as part of the key
+func TestD36_TagOptions(t *testing.T) {
+	type U struct {
+		Name string `json:"name,omitempty"`
+		Age  int    `json:",omitempty"`
+	}
+	s := z.Struct(z.Schema{"name": z.String().Required(), "age": z.Int().Required()})
+	var u U
+	errs := s.Parse(zjson.Decode(strings.NewReader(`{"name":"bob","age":3}`)), &u)
+	if len(errs) != 0 || u.Name != "bob" || u.Age != 3 {
+		t.Fatalf("issues %v dest %+v (want none, {bob 3})", errs, u)
+	}
+	// the issue key is the name part too
+	errs = s.Parse(zjson.Decode(strings.NewReader(`{"age":3}`)), &u)
+	if len(errs["name"]) != 1 {
+		t.Fatalf("issues %v (want one under \"name\")", errs)
+	}
+}
